@@ -3,6 +3,8 @@ package vrt
 import (
 	"fmt"
 	"reflect"
+	"runtime"
+	"strings"
 )
 
 // GoR replaces `go f(args...)` in instrumented packages: f and the arguments
@@ -34,5 +36,14 @@ func GoR(pos string, f any, args ...any) {
 		}
 		in[i] = v
 	}
-	Go(pos, func() { fv.Call(in) })
+	// the position carries the function's name, which (unlike the line
+	// number) is stable when the repository is edited
+	name := ""
+	if fn := runtime.FuncForPC(fv.Pointer()); fn != nil {
+		name = fn.Name()
+		if i := strings.LastIndex(name, "/"); i >= 0 {
+			name = name[i+1:]
+		}
+	}
+	Go(pos+" "+name, func() { fv.Call(in) })
 }
